@@ -461,6 +461,71 @@ fn run_draws(cx: &mut CaseCx, case: &Value) {
   cx.sample(json!({"t": t, "k": k, "rng_words_consumed": words, "coefficients": base.len()}));
 }
 
+
+/// Boundary candidates of the random source: streams whose next 24-byte candidate is a VALID field element at
+/// the top of the range (2^128 .. p-1, where a sloppy range test rejects) or just invalid (p, p+1). If the
+/// dealer's coefficients are the field's own `random` draws on an ordinary stream (self-validation), they must
+/// be on these streams too - a valid draw is never discarded, an invalid one never accepted.
+fn run_boundary_candidates(cx: &mut CaseCx, case: &Value) {
+  use ff::Field;
+  use star_sharks::Fp;
+  let t = case["t"].as_u64().unwrap() as u32;
+  let k = case["k"].as_u64().unwrap() as usize;
+  let se = sec_elems();
+  let elems: Vec<BigUint> = (0..k).map(|j| se[(j + 2) % se.len()].clone()).collect();
+  let secret = secret_bytes(&elems, 0);
+  let ncoef = (t as usize - 1) * k;
+  let run = |prefix: &[u8]| -> Option<(Vec<BigUint>, Vec<BigUint>)> {
+    let mut rng = ScriptRng::new(prefix, 0xB0DA);
+    let mut ev = guard(|| Sharks(t).dealer_rng(&secret, &mut rng).ok()).ok()??;
+    let it: Vec<Share> = (0..t as usize).filter_map(|_| ev.next()).collect();
+    let polys = model_polys(&it, k);
+    // compared as multisets: the order in which the dealer assigns its draws to coefficients is its own business
+    let mut got: Vec<BigUint> = polys.iter().flat_map(|p| p[1..].iter().cloned()).collect();
+    let mut rng2 = ScriptRng::new(prefix, 0xB0DA);
+    let mut want: Vec<BigUint> = (0..ncoef).map(|_| fp_to_big(&Fp::random(&mut rng2))).collect();
+    got.sort();
+    want.sort();
+    Some((got, want))
+  };
+  // self-validation on an ordinary stream
+  let validated = matches!(run(&[]), Some((g, w)) if g == w);
+  cx.count(if validated { "sampler_validated" } else { "sampler_not_the_fields_own" }, 1);
+  if !validated {
+    cx.note("the dealer's coefficients are not the field's own `random` draws on an ordinary stream (another sampler?): boundary-candidate comparison skipped, never an alarm");
+    return;
+  }
+  let p = rm::p();
+  let one = BigUint::one();
+  let cands: Vec<(&str, BigUint)> = vec![("2^128", &one << 128usize), ("2^128 + 1", (&one << 128usize) + &one), ("p - 1", &p - &one), ("p - 2", &p - BigUint::from(2u32)), ("2^128 + 12450", (&one << 128usize) + BigUint::from(12450u32)), ("p (invalid)", p.clone()), ("p + 1 (invalid)", &p + &one), ("2^128 - 1", (&one << 128usize) - &one)];
+  for (name, c) in &cands {
+    for pos in 0..ncoef {
+      // candidate `c` is what the sampler sees when it draws coefficient number `pos`
+      let mut prefix = vec![];
+      for i in 0..ncoef {
+        if i == pos {
+          prefix.extend_from_slice(&rm::le24(c));
+        } else {
+          prefix.extend_from_slice(&rm::le24(&BigUint::from(1000u32 + i as u32)));
+        }
+      }
+      cx.eval();
+      cx.nontrivial(fnv_str(&format!("{}|{}|{}|{}", t, k, name, pos)));
+      match run(&prefix) {
+        Some((g, w)) => {
+          if g != w {
+            cx.viol("C06/coefficients-not-the-draws", format!("the random source offers the candidate {} as draw number {}: the dealer's coefficients differ (as a set) from the field's own draws on the same stream (a valid draw was discarded, or an invalid one accepted)", name, pos), json!({"t": t, "k": k, "candidate": name, "draw_number": pos}));
+            return;
+          }
+          cx.count("boundary_candidates_agree", 1);
+        }
+        None => cx.viol("C06/dealer-failed", "dealer failed", json!({"candidate": name})),
+      }
+    }
+  }
+  cx.outcome(format!("t={} k={}", t, k));
+}
+
 /// every selection of a pool of t+2 shares (iterator + crafted random points)
 fn run_recover(cx: &mut CaseCx, case: &Value) {
   let t = case["t"].as_u64().unwrap() as u32;
@@ -765,6 +830,21 @@ pub fn spec() -> PropSpec {
         },
         run: run_draws,
         min_counts: &[("evaluations", 100)],
+      },
+      Check {
+        name: "boundary-candidates",
+        rule: "E-env on the caller's random source: for every coefficient position of (t, k) in {2,3,4} x {1,2} the stream offers the 24-byte candidate 2^128, 2^128+1, 2^128+12450, p-2, p-1 (valid, top of the range), 2^128-1, p, p+1 (invalid) exactly when that coefficient is drawn: the dealer's coefficients (model interpolation) equal the field's own `random` draws on the same stream - compared only after the same equality held on an ordinary stream (self-validating; otherwise counted, never an alarm)",
+        gen: |_| {
+          let mut v = vec![];
+          for t in [2u64, 3, 4] {
+            for k in [1u64, 2] {
+              v.push(json!({"t": t, "k": k}));
+            }
+          }
+          v
+        },
+        run: run_boundary_candidates,
+        min_counts: &[("boundary_candidates_agree", 100)],
       },
       Check {
         name: "recovery-selections",
